@@ -1981,7 +1981,10 @@ func (sa *Application) removeAllocationInternal(allocationKey string, releaseTyp
 		if resources.IsZero(sa.allocatedPlaceholder) {
 			sa.clearPlaceholderTimer()
 			sa.hasPlaceholderAlloc = false
-			if (sa.IsCompleting() && sa.stateTimer == nil) || sa.IsFailing() || sa.IsResuming() || sa.hasZeroAllocations() {
+			// a placeholder that is swapped for its real allocation is not the end of the application: the real
+			// allocation is added directly after this removal, even if nothing else is pending or allocated
+			replacing := releaseType == si.TerminationType_PLACEHOLDER_REPLACED && alloc.HasRelease()
+			if sa.IsFailing() || sa.IsResuming() || (!replacing && ((sa.IsCompleting() && sa.stateTimer == nil) || sa.hasZeroAllocations())) {
 				removeApp = true
 				event = CompleteApplication
 				if sa.IsFailing() {
